@@ -13,7 +13,7 @@ sequence it received in the language derived from the RFC message order.
 from .. import world as W
 from .. import scen as S
 from ..core import pmap
-from ..puppet import Puppet, NotQueueable, token_of
+from ..puppet import Puppet, NotQueueable, token_of, Tap
 from ..world import SEAMS, Pair, World, Task, run_tasks
 from tlslite import errors as E
 from tlslite.messages import HelloRequest, ClientHello
@@ -22,7 +22,7 @@ from tlslite.constants import AlertDescription as AD
 LEVEL = "model_checking"
 
 INSERTS = ["CCS", "FIN", "HREQ", "APP", "NST", "CH", "CERT_EMPTY", "KU",
-           "SHD"]
+           "SHD", "CR", "CV", "CKE", "SKE", "EE", "CSTATUS", "HS99"]
 
 
 def scenarios(tier):
@@ -35,6 +35,7 @@ def run_one(sc, seed, victim, script, resume_session=None, cache=None):
     pair = Pair(World())
     pup_conn = pair.s if victim == "C" else pair.c
     pup = Puppet(pup_conn, script)
+    pup.tap = Tap(pair.ep(victim))
     SEAMS.current = "C"
     cg = sc.client_gen(pair.c, session=resume_session)
     SEAMS.current = "S"
@@ -75,15 +76,65 @@ def in_language(H, seq, tls13, victim):
     return False
 
 
-def in_language_full(H, seq, tls13, victim):
-    if in_language(H, seq, tls13, victim):
-        return True
-    if victim == "C" and "CR" in H:
-        # CertificateRequest is optional for the server
-        H2 = [t for t in H if t != "CR"]
-        if in_language(H2, seq, tls13, victim):
-            return True
-    return False
+def variants(H, tls13, victim, cert_auth):
+    """The honest sequence plus the ones that differ only in the server's
+    optional CertificateRequest (legal only when the server authenticates
+    with a certificate: after the server's key-exchange messages and before
+    ServerHelloDone, or right after EncryptedExtensions in TLS 1.3)."""
+    Hs = [list(H)]
+    if victim != "C":
+        return Hs
+    if "CR" in H:
+        Hs.append([t for t in H if t != "CR"])
+    elif cert_auth:
+        if tls13:
+            if "EE" in H and H.index("EE") + 1 < len(H) and \
+                    H[H.index("EE") + 1] in ("CERT", "CCERT"):
+                i = H.index("EE") + 1
+                Hs.append(H[:i] + ["CR"] + H[i:])
+        elif "SHD" in H and "CERT" in H:
+            i = H.index("SHD")
+            Hs.append(H[:i] + ["CR"] + H[i:])
+    return Hs
+
+
+def in_language_full(H, seq, tls13, victim, cert_auth=False):
+    return any(in_language(h, seq, tls13, victim)
+               for h in variants(H, tls13, victim, cert_auth))
+
+
+def prefix_legal(H, p, tls13, victim, cert_auth=False):
+    """Can the consumed-token sequence p still be extended to a legal one?"""
+    p = [t for t in p if t != "ALERT"]
+    Hs = variants(H, tls13, victim, cert_auth)
+    if tls13:
+        fin = p.index("FIN") if "FIN" in p else len(p)
+        if any(t == "CCS" and not (0 < i < fin) for i, t in enumerate(p)):
+            return False
+        p = [t for t in p if t != "CCS"]
+        Hs = [[t for t in h if t != "CCS"] for h in Hs]
+    elif victim == "C":
+        p = [t for t in p if t != "HREQ"]
+    return any(h[:len(p)] == p for h in Hs)
+
+
+def continued_after_illegal(tap, H, tls13, victim, cert_auth=False):
+    """First non-alert message the victim sent although what it had
+    consumed by then was no longer the prefix of any legal sequence."""
+    recv = []
+    for (kind, tok) in tap.log:
+        if kind == "recv":
+            recv.append(tok)
+            if tok == "FIN" and recv.count("FIN") == 1 and \
+                    prefix_legal(H, recv, tls13, victim, cert_auth) and \
+                    len([t for t in recv if t not in ("CCS", "HREQ",
+                                                      "ALERT")]) >= \
+                    len([t for t in H if t not in ("CCS", "CR")]):
+                return None     # the peer's flight is complete and legal
+        elif tok != "ALERT" and not prefix_legal(H, recv, tls13, victim,
+                                                 cert_auth):
+            return tok, list(recv)
+    return None
 
 
 def cut_at_completion(tokens, victim, tls13):
@@ -139,6 +190,7 @@ def case(item):
     H = cut_at_completion([t for _, t in honest], victim, tls13)
     hs_honest = honest[:len(H)]
     rec["H"] = H
+    cert_auth = sc.flavour == "cert"
     devs = deviations(hs_honest)
     if tier == "thorough":
         singles = list(devs)
@@ -151,7 +203,7 @@ def case(item):
         v = out2[victim]
         completed = v.status == "ok"
         seq = cut_at_completion(list(pup2.sent), victim, tls13)
-        legal = in_language_full(H, seq, tls13, victim)
+        legal = in_language_full(H, seq, tls13, victim, cert_auth)
         (i, act), = script.items()
         desc = "%s@%d(%s)" % ("+".join(str(a) for a in act), i,
                               dict(honest).get(i))
@@ -178,6 +230,12 @@ def case(item):
             else:
                 fail = "victim raised %s: %s" % (type(e).__name__,
                                                  str(e)[:60])
+        if fail is None:
+            cont = continued_after_illegal(pup2.tap, H, tls13, victim,
+                                           cert_auth)
+            if cont is not None:
+                fail = ("victim sent %s after consuming the illegal "
+                        "sequence %r (honest: %r)" % (cont[0], cont[1], H))
         # no application data may have reached the victim's reader
         ep = pair2.ep(victim)
         if ep._readBuffer:
@@ -225,7 +283,8 @@ def case2(item):
             completed = v.status == "ok"
             seq = cut_at_completion(list(pup2.sent), victim, tls13)
             rec["sigs"].add((acta[0], actb[0], completed))
-            if completed and not in_language_full(H, seq, tls13, victim):
+            if completed and not in_language_full(H, seq, tls13, victim,
+                                                  sc.flavour == "cert"):
                 rec["fails"].append((
                     {"dev": "%r@%d+%r@%d" % (acta, ia, actb, ib),
                      "act": acta[0] + "+" + actb[0],
